@@ -383,13 +383,18 @@ func judgeForm(env *caseEnv, f *Form, items []*Item, v variant, c *lib.Ctx) (*fo
 			return out, fails
 		}
 	}
+	var parsed *parsedForm
+	if pv, stack := lib.Guard(func() { parsed = parseForm(f) }); pv != nil {
+		add("parse", lib.PanicSig(pv, stack), fmt.Sprintf("parsing form %s panics: %v", f.Name, pv))
+		return out, fails
+	}
 	for _, dec := range []string{"hcldec", "gohcl"} {
 		var res *DecResult
 		pv, stack := lib.Guard(func() {
 			if dec == "hcldec" {
-				res = decodeSpec(f, env.spec)
+				res = decodeSpec(f, parsed, env.spec)
 			} else {
-				res = decodeTags(f, env.lay)
+				res = decodeTags(f, parsed, env.lay)
 			}
 		})
 		if pv != nil {
@@ -526,7 +531,7 @@ func pickFailures(fails []failure) []failure {
 		}
 	}
 	var out []failure
-	for _, k := range []string{"hcldec", "gohcl", "format", ""} {
+	for _, k := range []string{"hcldec", "gohcl", "format", "parse", ""} {
 		if f, ok := best[k]; ok {
 			out = append(out, f)
 		}
@@ -758,7 +763,9 @@ func doCase(c *lib.Ctx, env *caseEnv, items []*Item, v variant, seed int64, stat
 	// minimise the configuration (and then the schema) while the same class of failure
 	// persists; cheap, only on a failure
 	s2, it2 := env.s, items
-	if !strings.HasPrefix(picked[0].Sig, "harness-panic") {
+	if !strings.HasPrefix(picked[0].Sig, "harness-panic") && v.Class == "valid" {
+		// (an invalid variant is not shrunk: removing the faulty item would "preserve" an
+		// accepted-invalid failure trivially)
 		s2, it2 = shrink(env.s, items, v, seed, sigSet(picked))
 	}
 	env2, err := newEnv(s2)
